@@ -58,3 +58,8 @@ claim("C04", "grammar-based generation of hostile tagged documents with effect m
       "no import/exec/open audit event, sys.modules unchanged, no call outside lib/yaml + stdlib or of a named object, no canary record; results hold only plain data, tuples, complex and "
       "objects identical to an attribute of a module imported before the load; object/new/apply/module tags at dispatched positions give ConstructorError; static FullLoader tables.",
       "Trusted: vlib/safety.py position classification and monitors. PEP 562 modules are outside the catalogue.")
+claim("C14", "property-based testing against a reference model: an independent non-mutating evaluator of the composed node graph implementing the merge/set/omap/pairs rules literally (Hypothesis)",
+      "Generated search: documents of mappings with colliding keys, one or several merge keys (mapping, alias, list, alias to an anchored list, nested, shared sources reused), quoted '<<', "
+      "ill-shaped merge values, !!set / !!omap / !!pairs of every shape, unhashable keys; SafeLoader and CSafeLoader, each document loaded twice. Oracle: vlib/ref_construct.py says either the "
+      "value (compared type-strictly on values, by dict equality on keys, key order for merge-free mappings) or 'ill-shaped', in which case exactly ConstructorError must be raised.",
+      "Trusted: vlib/ref_construct.py, vlib/ref_scalar.py, and yaml.compose for the node graph. Recursive merges are outside the generated domain.")
